@@ -94,7 +94,7 @@ fn sim_op(u: &mut Unstructured, n: usize) -> arbitrary::Result<Op> {
         },
         1 | 2 => Op::Subscribe { c, filters: vec![(u.choose(FILTERS)?.to_string(), u.int_in_range(0..=2)?)], sub_id: if u.arbitrary()? { Some(u.int_in_range(0..=3)?) } else { None }, notify: u.arbitrary()? },
         3 => Op::Unsubscribe { c, filters: vec![u.choose(FILTERS)?.to_string()], notify: u.arbitrary()? },
-        4..=7 => Op::Publish { c, topic: u.choose(TOPICS)?.to_string(), qos: u.int_in_range(0..=2)?, retain: u.arbitrary()?, size: u.int_in_range(0..=40)?, props: None, notify: u.arbitrary()? },
+        4..=7 => Op::Publish { c, topic: u.choose(TOPICS)?.to_string(), qos: u.int_in_range(0..=2)?, retain: u.arbitrary()?, size: u.int_in_range(0..=40)?, props: None, notify: u.arbitrary()?, dup: false },
         8 => Op::Release { c, notify: true },
         9 => Op::Disconnect { c, notify: true, with_props: false },
         10 => Op::DropLink { c },
